@@ -193,6 +193,19 @@ pub fn run(args: &Args) -> (Meta, Stats) {
             }
         }
         while !expired(deadline) {
+            if rng.chance(1, 120) {
+                // scaled-up inputs (long runs around block sizes, wide tags, many references), whole and chunked
+                let c = Case { input: crate::big::big_html(&mut rng), start: StartState::Data, last_tag: None, policy: Policy::TreeBuilderLike, discard_bom: true };
+                check_case(&c, st, false);
+                st.count("scaled_up_cases");
+                let cuts = crate::big::big_cuts(&mut rng, c.input.chars().count());
+                if let (Ok(m), Ok(i)) = (catch(|| model_tokens(&c)), impl_tokens(&c, &cuts)) {
+                    if let Some(d) = first_diff(&i, &m.0, false) {
+                        st.violation("tokens:chunked", &format!("scaled-up input={} cuts={:?}: chunked implementation run vs WHATWG model: {d}", show(&c.input), &cuts[..cuts.len().min(8)]), json!({"case": c.to_json(), "cuts": cuts}));
+                    }
+                }
+                continue;
+            }
             let input = if rng.chance(1, 6) { gen::simd_run(&mut rng) } else { gen::tok_soup(&mut rng, 9) };
             if input.chars().count() > 300 {
                 continue;
@@ -237,7 +250,7 @@ pub fn run(args: &Args) -> (Meta, Stats) {
     }
     let mut m = super::meta(
         args,
-        "implementation tokens (coalesced characters, NUL distinct, parse errors dropped) are compared with an independent WHATWG reference tokenizer run with the same start state, last start tag, BOM setting and sink policy; inputs: every (state prefix x next-character class x suffix) single transition from all 7 content-model start states, the same under a foreign (CDATA-allowed) sink, character-class pairs (all in thorough, a third in quick), random markup soup incl. SIMD-offset text runs under tree-builder-like, constant and hashed sink policies. Non-trivial = more than EOF + one token; distinct by hash of the whole case.",
+        "implementation tokens (coalesced characters, NUL distinct, parse errors dropped) are compared with an independent WHATWG reference tokenizer run with the same start state, last start tag, BOM setting and sink policy; inputs: every (state prefix x next-character class x suffix) single transition from all 7 content-model start states, the same under a foreign (CDATA-allowed) sink, character-class pairs (all in thorough, a third in quick), scaled-up inputs (runs of up to 9000 bytes with special characters on and around power-of-two offsets, tags with up to 140 attributes and duplicates at a distance, hundreds of references), random markup soup incl. SIMD-offset text runs under tree-builder-like, constant and hashed sink policies. Non-trivial = more than EOF + one token; distinct by hash of the whole case.",
         &[
             "the reference tokenizer is hand-written from the WHATWG spec (no spec copy or second parser exists offline); it passes the committed validation vectors, whose count is reported",
             "start states are the seven content-model states; mid-token start states are not claimed",
@@ -247,6 +260,7 @@ pub fn run(args: &Args) -> (Meta, Stats) {
     m.require = vec![
         ("enumerated_single".into(), single.len() as u64),
         ("soup_cases".into(), 20000),
+        ("scaled_up_cases".into(), 100),
         ("model_validation_vectors_passed".into(), 300),
         ("model_states".into(), 78),
     ];
